@@ -25,9 +25,14 @@ package aesgcm256cfs
 //@   ensures err == nil ==> len(data) >= 28 && openOK(sha3S(old(str(key))), sub(old(str(data)), 0, 12), sub(old(str(data)), 12, len(data)))
 //@   ensures err == nil ==> str(decrypted) == openS(sha3S(old(str(key))), sub(old(str(data)), 0, 12), sub(old(str(data)), 12, len(data)))
 
+// the stream is read to its end and closed on every path
 //@ func newReader [C05]
 //@   requires stream != nil
 //@   ensures err != nil ==> _out == nil
+//@   trace ioutil.ReadAll as READALL
+//@   trace ReadCloser.Close as CLOSE
+//@   at_call ReadCloser.Close requires $recv == stream
+//@   trace_ensures true : ^READALL CLOSE
 
 //@ func (*reader).Read [C05]
 //@   modifies aesgcm256cfs.reader.data, E:uint8
